@@ -401,6 +401,14 @@ def serialize_query(o, want):
 def solve_serialized(arg):
     q, timeout_ms = arg[:2]
     deadline_s = arg[2] if len(arg) > 2 else None
+    try:
+        # the whole run's budget for solver work (PYVC_T0 is set by ./check): past it, queries get a short deadline; on the unchanged
+        # tree the slowest check finishes in less than half of it
+        t0 = float(os.environ.get('PYVC_T0', '0'))
+        if t0 and time.time() - t0 > float(os.environ.get('PYVC_RUN_BUDGET_S', '420')):
+            deadline_s = min(deadline_s or 8.0, 8.0)
+    except ValueError:
+        pass
     fs = list(z3.parse_smt2_string(q['smt2']))
     if len(fs) != q['n'] + 1:
         # z3 may merge / split assertions when printing: fall back to a single undifferentiated query
